@@ -2,6 +2,7 @@ from datetime import datetime
 import functools
 import itertools
 import operator
+import six
 try:
     from functools import lru_cache
 except ImportError:  # pragma: no cover
@@ -309,12 +310,44 @@ _CMP_OPS = {'==': operator.eq, '!=': operator.ne, '<': operator.lt,
             '<=': operator.le, '>': operator.gt, '>=': operator.ge}
 
 
+def _kind(value):
+    '''
+    The Haystack kind of a value, for comparisons in a filter.
+    '''
+    if isinstance(value, bool):
+        return 'bool'
+    if isinstance(value, (Quantity, int, float)):
+        return 'number'
+    if isinstance(value, datetime):
+        return 'dateTime'
+    for name, cls in (('uri', Uri), ('bin', Bin), ('ref', Ref), ('xstr', XStr),
+                      ('coord', Coordinate), ('str', six.string_types)):
+        if isinstance(value, cls):
+            return name
+    return type(value).__name__
+
+
 def _cmp(op, left, right):
     '''
-    A comparison on an absent tag or between incomparable kinds is false.
+    A comparison on an absent tag or between incomparable kinds is false
+    (except != : values of different kinds are not equal).
     '''
     if left is NOT_FOUND:
         return False
+    kind = _kind(left)
+    if kind != _kind(right):
+        return op == '!='
+    if kind == 'ref' and op in ('==', '!='):
+        # A reference is its identifier; the display name is a decoration.
+        return (left.name == right.name) == (op == '==')
+    if kind == 'number':
+        lunit = left.unit if isinstance(left, Quantity) else None
+        runit = right.unit if isinstance(right, Quantity) else None
+        if (lunit or None) != (runit or None):
+            # Numbers of different units (or one without unit) differ.
+            return op == '!='
+        left = left.value if isinstance(left, Quantity) else left
+        right = right.value if isinstance(right, Quantity) else right
     try:
         return bool(_CMP_OPS[op](left, right))
     except TypeError:
